@@ -53,6 +53,14 @@ def check(run: Run) -> None:
         for align in (True, False):
             for endian in ("<", ">"):
                 tie_cases.append(Case(ut + " struct main { uint8 k; U u; uint8 t; };", endian=endian, align=align, compiled=rng.random() < 0.5))
+    # histories: an array type of S exists, S is then extended, and S[n] is used again in a new structure
+    for j in range(12):
+        base = rng.choice(["uint8 a;", "uint16 a; uint8 b;", "uint32 a;", "char a[3];"])
+        cnt = rng.randrange(1, 4)
+        extra = rng.choice(["uint8", "uint16", "uint32", "int24"])
+        hist = [("array", "S", cnt)] if j % 2 else [("load", f"struct U{j} {{ S x[{cnt}]; }};")]
+        hist += [("add_field", "S", "zz", extra, None), ("load", f"struct main {{ uint8 k; S y[{cnt}]; uint16 t; }};")]
+        tie_cases.append(Case(f"struct S {{ {base} }};", align=bool(j % 3 == 0), compiled=bool(j % 2), history=hist))
     for i in range(n + len(tie_cases)):
         static = i % 3 == 0
         c = F.gen_case(rng, depth=2, unions=(i % 5 == 0), static_only=static, max_fields=6) if i < n else tie_cases[i - n]
